@@ -423,4 +423,4 @@ also('C20', 'accumulating loops of the certificate routines append on every iter
 for _p in sorted(CLAIMS):
     also(_p, 'no function outside the reviewed set of 24 memoised functions is decorated with lru_cache / cache (or keeps a module-level memo) while returning an unfrozen '
              'NumPy / torch object (MC3: no new shared mutable result in the modules of this property; package-wide in the thorough tier); no function of those modules writes in place into (a view of) an '
-             'array it was given (PU1, incl. `x op= v` on an array parameter); every module-level memo is keyed on all inputs of the stored value (MC1); no certainly-real buffer receives a certainly-complex value (DTF1); no reshape regroups symbolically typed axes in another factor order and no product pairs two merged axes of different factor order (FL1 axis-order typing); every local name bound to a computed value is read (UV1, three reviewed exceptions); an option is forwarded to a same-named option of a numqi helper on a delegating branch (FW2); eigh eigenvectors are transposed only with conjugation (EVH1); no real cast of an array inside a branch whose dtype test admits complex (CAST1); no operand combined with itself, no conditional with identical arms (SELF1).')
+             'array it was given (PU1, incl. `x op= v` on an array parameter); every module-level memo is keyed on all inputs of the stored value (MC1); no certainly-real buffer receives a certainly-complex value (DTF1); no reshape regroups symbolically typed axes in another factor order and no product pairs two merged axes of different factor order (FL1 axis-order typing); no computed local is left unread while its neighbour stands twice in one later statement (UV1: substitution evidence only); an option is forwarded to a same-named option of a numqi helper on a delegating branch (FW2); eigh eigenvectors are transposed only with conjugation (EVH1); no real cast of an array inside a branch whose dtype test admits complex (CAST1); no operand combined with itself, no conditional with identical arms (SELF1).')
